@@ -178,6 +178,7 @@ pub fn property() -> Property {
             signature: no_signature,
             essential: &["keeps_redrawing", "disable", "replace", "finish_then_drop", "last_drop", "manual_ticks_ignored"],
             workers: 8,
+            decode: None,
         })],
     }
 }
